@@ -64,6 +64,11 @@ def gen_model(rng, fs, potable, nmax=4, allow_undeclared=True, kmax=4, nr_max=12
     m["embed"] = {e: next(fid) for e in els}
     if fs:
         m["dens"] = {a: {b: (next(fid) if not (und and rng.random() < 0.3) else None) for b in els} for a in els}
+        if not potable and rng.random() < 0.35:
+            # Python API: density dictionaries may hold entries for species that are not being tabulated (objects of a larger model re-used for a sub-system);
+            # the file has one block per TABULATED species pair all the same (seed C05_8)
+            for a in els:
+                m["dens"][a]["Qq"] = next(fid)
     else:
         m["dens"] = {e: next(fid) for e in els}
     pairs = []
